@@ -32,6 +32,53 @@ def with_watchdog(fn, seconds=60):
         signal.signal(signal.SIGALRM, old)
 
 
+_registered = [False]
+C17_EXT = "extension-definition--a1b2c3d4-0000-4000-8000-00000000e001"
+
+
+def ensure_custom():
+    """Harness-registered custom marking / extension / object types whose property names coincide with names the base classes give
+    a meaning to (created, modified, id-less classes): constraint checks written for identified objects run on them too."""
+    if _registered[0]:
+        return
+    import stix2
+    from stix2 import properties as P
+
+    @stix2.v21.CustomMarking("x-verif-c17mark", [("created", P.TimestampProperty()), ("modified", P.TimestampProperty()), ("level", P.IntegerProperty(required=True)),
+                                                 ("flag", P.BooleanProperty())])
+    class C17Mark(object):
+        pass
+
+    @stix2.v21.CustomExtension("x-verif-c17-ext", [("created", P.TimestampProperty()), ("modified", P.TimestampProperty()), ("first_seen", P.TimestampProperty()),
+                                                   ("last_seen", P.TimestampProperty()), ("rank", P.IntegerProperty())])
+    class C17Ext(object):
+        pass
+
+    @stix2.v21.CustomExtension(C17_EXT, [("created", P.TimestampProperty()), ("modified", P.TimestampProperty()), ("rank", P.IntegerProperty(required=True))])
+    class C17Ext2(object):
+        extension_type = "property-extension"
+
+    @stix2.v20.CustomMarking("x-verif-c17mark", [("created", P.TimestampProperty()), ("modified", P.TimestampProperty()), ("level", P.IntegerProperty(required=True))])
+    class C17Mark20(object):
+        pass
+    _registered[0] = True
+
+
+U17 = "3f2504e0-4f89-41d3-9a0c-0305e82c3301"
+CUSTOM_BASES = [
+    ("2.1", {"type": "marking-definition", "spec_version": "2.1", "id": "marking-definition--" + U17, "created": "2020-01-01T00:00:00.000Z", "definition_type": "x-verif-c17mark",
+             "definition": {"created": "2020-01-01T00:00:00Z", "modified": "2020-01-02T00:00:00Z", "level": 1, "flag": False}}),
+    ("2.0", {"type": "marking-definition", "id": "marking-definition--" + U17, "created": "2020-01-01T00:00:00.000Z", "definition_type": "x-verif-c17mark",
+             "definition": {"created": "2020-01-01T00:00:00Z", "modified": "2020-01-02T00:00:00Z", "level": 1}}),
+    ("2.1", {"type": "file", "spec_version": "2.1", "id": "file--" + U17, "name": "f",
+             "extensions": {"x-verif-c17-ext": {"created": "2020-01-01T00:00:00Z", "modified": "2020-01-02T00:00:00Z", "first_seen": "2020-01-01T00:00:00Z",
+                                                "last_seen": "2020-01-02T00:00:00Z", "rank": 1}}}),
+    ("2.1", {"type": "identity", "spec_version": "2.1", "id": "identity--" + U17, "created": "2020-01-01T00:00:00.000Z", "modified": "2020-01-02T00:00:00.000Z", "name": "n",
+             "extensions": {C17_EXT: {"extension_type": "property-extension", "created": "2020-01-01T00:00:00Z", "modified": "2020-01-02T00:00:00Z", "rank": 1}}}),
+]
+CUSTOM_VALUES = ["0001-01-01T00:00:00Z", "9999-12-31T23:59:59Z", "2020-01-01T12:00:00Z", None, 5, "x", True, [], {}]
+
+
 def registry_snapshot():
     from stix2 import registry
     return {v: {cat: dict(mp) for cat, mp in maps.items()} for v, maps in registry.STIX2_OBJ_MAPS.items()}
@@ -115,6 +162,7 @@ def judge(entry, payload_desc, res, exc, elapsed_note=None, site=None):
 
 
 def check_case(case):
+    ensure_custom()
     ver = case.get("ver", "2.1")
     entry = case["entry"]
     if "nest" in case:
@@ -336,6 +384,23 @@ def run(ctx):
             return ver, doc, draw(st.integers(0, 10 ** 4))
         core.run_given(ctx, strat(), body, per_type, label="c17-%s-%s" % ver_t, rounds=3)
         core.run_given(ctx, strat(), body_faults, max(1, per_type // 2) + (3 if ver_t == ("2.0", "observed-data") else 0), label="c17-faults-%s-%s" % ver_t, rounds=3)
+
+    # harness-registered custom marking / extension classes: every member x (timestamps at both ends of time, junk), every entry (finite)
+    ctx.collect_only = True
+    for ver, base in CUSTOM_BASES:
+        holder = ("definition",) if "definition" in base else ("extensions", list(base["extensions"])[0])
+        inner = base
+        for comp in holder:
+            inner = inner[comp]
+        for key in list(inner) + ["created", "modified"]:
+            for j, val in enumerate(CUSTOM_VALUES):
+                for entry in ("parse", "parse-custom", "parse-text", "constructor", "memory-add"):
+                    case = {"ver": ver, "doc": base, "entry": entry, "corruptions": [{"path": list(holder) + [key], "op": "set", "kind": "custom-class-member:%d" % j, "value": val}]}
+                    fails = check_case(case)
+                    if fails is not None:
+                        ctx.note(case, True, ["custom-class-member", "entry:" + entry], fp=core.fingerprint([ver, base["type"], holder, key, j, entry]))
+                        ctx.handle(case, fails)
+    ctx.collect_only = False
 
     # every STIX 2.0 observable type as a standalone object (with partners for its references), maximal and random shapes
     partners = ["file", "directory", "ipv4-addr", "artifact", "user-account", "email-addr", "process", "network-traffic", "mac-addr", "autonomous-system"]
